@@ -46,6 +46,17 @@ def evaluate(ctx, rng, tier, focus, budget, broken):
         sd = seed + 100 * ctx.seed
         r = subprocess.run([exe, str(nt), str(sd), str(iters)], capture_output=True, text=True, env=env)
         runs.append({"threads": nt, "seed": sd, "rc": r.returncode, "out": r.stdout.strip()[:100]})
+        if r.returncode == 0 and nt >= 4:
+            # the same jobs with the threads started first in a fresh process (state that is initialised lazily on
+            # first use is then first touched concurrently), against a purely sequential process
+            rp = subprocess.run([exe, str(nt), str(sd), str(iters), "par"], capture_output=True, text=True, env=env)
+            rs = subprocess.run([exe, str(nt), str(sd), str(iters), "seq"], capture_output=True, text=True, env=env)
+            runs.append({"threads": nt, "seed": sd, "rc": rp.returncode, "out": "threads-first " + rp.stdout.strip()[:40]})
+            if rp.returncode != 0 or rp.stdout != rs.stdout:
+                r = rp
+                if rp.returncode == 0:
+                    r.returncode = 1
+                    r.stdout = "threads-first hashes differ from the sequential process: " + rp.stdout.strip()[:200] + " vs " + rs.stdout.strip()[:200]
         if r.returncode != 0:
             what = "ThreadSanitizer reported a data race" if "ThreadSanitizer" in r.stderr else \
                    "a thread's results differ from the sequential run of the same calls"
